@@ -73,6 +73,12 @@ func exprString(e ast.Expr) string {
 		return exprString(x.X)
 	case *ast.BinaryExpr:
 		return exprString(x.X) + " " + x.Op.String() + " " + exprString(x.Y)
+	case *ast.CallExpr:
+		var as []string
+		for _, a := range x.Args {
+			as = append(as, exprString(a))
+		}
+		return exprString(x.Fun) + "(" + strings.Join(as, ", ") + ")"
 	}
 	return "?"
 }
@@ -198,6 +204,10 @@ func popWaitShape(fd *ast.FuncDecl) []string {
 			ops = append(ops, ".loop")
 		case *ast.ReturnStmt:
 			ops = append(ops, ".ret")
+		case *ast.UnaryExpr:
+			if x.Op == token.ARROW {
+				ops = append(ops, fmt.Sprintf(".other %q", "recv "+exprString(x.X)))
+			}
 		case *ast.CallExpr:
 			if sel, ok := x.Fun.(*ast.SelectorExpr); ok {
 				if id, ok := sel.X.(*ast.Ident); ok {
